@@ -700,7 +700,7 @@ package tacquito
 //@   loop 1 invariant[C17] ghost.lclosed == old(ghost.lclosed) && ghost.waited == old(ghost.waited)
 
 //@ func (r Request) Fields(keys ...ContextKey) (m map[string]string)
-//@   unverified logging helper: tries every decoder and merges maps; only its panic-freedom matters (C14)
+//@   loop 1 invariant -1 <= rangeindex && rangeindex < len(keys)
 
 //@ func SetAuthorReplyArgs$1(a *AuthorReply)
 //@   requires a != nil
@@ -723,3 +723,43 @@ package tacquito
 //@   ensures[C19] (reply != nil && p.Header.Type == 2) ==> reply.Body[0] == AuthorStatusError
 //@   ensures[C19] (reply != nil && p.Header.Type == 3) ==> reply.Body[4] == AcctReplyStatusError
 //@   ensures fresh(reply)
+
+//@ func Request.Fields$1(a map[string]string, b map[string]string)
+//@   requires a != nil
+//@   modifies a
+//@   loop 1 invariant 0 <= rangecount
+
+//@ func (t Args) String() (s string)
+//@   loop 1 invariant -1 <= rangeindex && rangeindex < len(t)
+
+// ---------------------------------------------------------------------------
+// authorize_fields.go: argument helpers (panic-freedom, C14)
+// ---------------------------------------------------------------------------
+
+//@ func (t Arg) ASV() (a string, s string, v string)
+
+//@ func (t Args) Service() (s string)
+//@   loop 1 invariant -1 <= rangeindex && rangeindex < len(t)
+
+//@ func (t Args) CommandSplit() (a string, s string, v string)
+//@   loop 1 invariant -1 <= rangeindex && rangeindex < len(t)
+
+//@ func (t Args) Command() (cmd string)
+//@   loop 1 invariant -1 <= rangeindex && rangeindex < len(t)
+
+//@ func (t Args) CommandArgs() (s string)
+//@   loop 1 invariant -1 <= rangeindex && rangeindex < len(t)
+
+//@ func (t Args) CommandArgsNoLE() (s string)
+//@   loop 1 invariant -1 <= rangeindex && rangeindex < len(t)
+
+//@ func (t Args) Unique() (res Args)
+//@   loop 1 invariant -1 <= rangeindex && rangeindex < len(t)
+
+//@ func (t Args) Args() (res []string)
+//@   loop 1 invariant -1 <= rangeindex && rangeindex < len(unique)
+
+//@ func (t *Args) Append(args ...string)
+//@   requires t != nil
+//@   modifies *t
+//@   loop 1 invariant -1 <= rangeindex && rangeindex < len(args)
